@@ -11,9 +11,14 @@ from vf.sim.device import DeviceConfig
 from vf.sim.scenario import Sim
 
 
-def session(sim: Sim, debug: bool | None) -> tuple[Any, Any, list[Any]]:
-    dev = sim.device(DeviceConfig())
-    cli = sim.client(keepalive=1e5, debug=debug)
+PSK = bytes(range(11, 43))
+
+
+def session(sim: Sim, debug: bool | None, framing: str = "plain") -> tuple[Any, Any, list[Any]]:
+    import base64
+
+    dev = sim.device(DeviceConfig(noise_psk=PSK if framing == "noise" else None))
+    cli = sim.client(keepalive=1e5, debug=debug, **({"noise_psk": base64.b64encode(PSK).decode()} if framing == "noise" else {}))
     c0 = sim.call("connect", lambda: cli.connect(login=False))
     sim.run(until=lambda: c0.done, max_time=sim.clock + 50)
     if c0.outcome != "ok":
@@ -24,15 +29,19 @@ def session(sim: Sim, debug: bool | None) -> tuple[Any, Any, list[Any]]:
     return cli, dev.conn, got
 
 
-def shard(ctx: Ctx) -> None:
+def shard(ctx: Ctx, framing: str = "plain", prop: str = "C01") -> None:
     from aioesphomeapi import api_pb2 as pb
 
     res = ctx.res
     rng = ctx.rng
     idx = 0
+    if framing == "noise":
+        unknown_all = [0, 124, 125, 200, 255, 300, 16384, 65535]      # (the Noise inner header has 16 bits for the type)
+    else:
+        unknown_all = [0, 124, 125, 200, 255, 300, 16384, 2**21, 2**28 + 7, 2**32 - 1]
     # (a) streams of known state frames with frames of UNKNOWN type numbers between them (newer firmware; every id above the table, 0, large
     #     varints), empty and non-empty payloads, under several segmentations and both logging configurations
-    unknown = [0, 124, 125, 200, 255, 300, 16384, 2**21, 2**28 + 7, 2**32 - 1]
+    unknown = unknown_all
     for debug in (False, True):
         for plan in ("one-chunk", "per-frame", "bytewise", "random-cuts", "two-halves"):
             for rep in range(3 if ctx.thorough else 1):
@@ -41,9 +50,9 @@ def shard(ctx: Ctx) -> None:
                     continue
                 with Sim() as sim:
                     try:
-                        cli, dconn, got = session(sim, debug)
+                        cli, dconn, got = session(sim, debug, framing)
                     except RuntimeError as e:
-                        res.inconclusive.append(f"C01 part S: {e}")
+                        res.inconclusive.append(f"{prop} part S: {e}")
                         continue
                     frames: list[bytes] = []
                     exp_keys: list[int] = []
@@ -52,7 +61,7 @@ def shard(ctx: Ctx) -> None:
                         exp_keys.append(k)
                         u = unknown[(k + rep) % len(unknown)]
                         frames.append(dconn.encode_id(u, b"" if k % 2 else bytes(rng.getrandbits(8) for _ in range(1 + k))))
-                    stream = b"".join(frames)
+                    stream = b"".join(frames)      # (for Noise the frames are encrypted here, in order: nonce order = wire order)
                     if plan == "one-chunk":
                         cuts: list[int] = []
                     elif plan == "per-frame":
@@ -77,14 +86,14 @@ def shard(ctx: Ctx) -> None:
                     res.count(f"S/unknown-types-between-known/{plan}/debug={debug}")
                     res.sig("S-unknown", plan, debug, rep)
                     keys = [s.key for s in got]
-                    case = {"part": "S", "plan": plan, "debug": debug, "unknown_types": unknown}
+                    case = {"part": "S", "plan": plan, "debug": debug, "unknown_types": unknown, "framing": framing}
                     if keys != exp_keys:
-                        res.violation("C01/S/frames-lost-behind-unknown-type", f"{plan}, debug logging {'on' if debug else 'off'}: 12 state frames with frames of unknown type "
+                        res.violation(f"{prop}/S/frames-lost-behind-unknown-type", f"{plan}, debug logging {'on' if debug else 'off'}: 12 state frames with frames of unknown type "
                                       f"numbers between them; delivered keys {keys}", case, trace=sim.trace(30))
                     else:
                         res.count("S/frames_delivered_and_checked", len(keys))
                     if sim.conns and sim.conns[0].obj.connection_state.name != "CONNECTED":
-                        res.violation("C01/S/closed-on-conformant-stream", f"{plan}: connection {sim.conns[0].obj.connection_state.name} after a conformant stream "
+                        res.violation(f"{prop}/S/closed-on-conformant-stream", f"{plan}: connection {sim.conns[0].obj.connection_state.name} after a conformant stream "
                                       f"(first fatal {sim.conns[0].fatals[:1]})", case, trace=sim.trace(30))
     # (b) the client answers from inside the read loop (PingRequest -> PingResponse) while its own write buffer is full up to the transport's
     #     high-water mark (a device that reads slowly): whatever flow control does with that write, the frames behind the PingRequest in the same
@@ -96,26 +105,31 @@ def shard(ctx: Ctx) -> None:
                 continue
             with Sim() as sim:
                 try:
-                    cli, dconn, got = session(sim, False)
+                    cli, dconn, got = session(sim, False, framing)
                 except RuntimeError as e:
-                    res.inconclusive.append(f"C01 part S: {e}")
+                    res.inconclusive.append(f"{prop} part S: {e}")
                     continue
                 tr = sim.transports[-1]
                 dconn.sock.send_fault = "block"
                 low, high = tr.get_write_buffer_limits()
                 target = {"just-below-high-water": high - 1, "far-below": high // 2, "above": high + 5000}[fill_to]
                 try:
+                    s0 = tr.get_write_buffer_size()
+                    cli.text_command(1, "")
+                    ov = tr.get_write_buffer_size() - s0        # bytes one (short) command frame adds under this framing
                     for _ in range(4000):
                         size = tr.get_write_buffer_size()
                         remaining = target - size
-                        if remaining >= 160:
-                            cli.send_voice_assistant_audio(b"\x00" * min(remaining - 150, 60000))
-                        elif remaining >= 11:
-                            cli.text_command(1, "x" * (remaining - 10))
+                        if remaining >= ov + 300:
+                            cli.send_voice_assistant_audio(b"\x00" * min(remaining - ov - 250, 60000))
+                        elif remaining >= ov + 110:
+                            cli.text_command(1, "x" * 50)
+                        elif remaining >= ov:
+                            cli.text_command(1, "x" * (remaining - ov))
                         else:
                             break
                 except Exception as e:  # noqa: BLE001
-                    res.inconclusive.append(f"C01 part S: filling the write buffer raised {e!r}")
+                    res.inconclusive.append(f"{prop} part S: filling the write buffer raised {e!r}")
                     continue
                 size0 = tr.get_write_buffer_size()
                 msgs = [pb.PingRequest()] + [pb.SensorStateResponse(key=100 + k, state=1.0) for k in range(behind)]
@@ -130,9 +144,9 @@ def shard(ctx: Ctx) -> None:
                 res.count("S/write_buffer_bytes_when_ping_arrived", size0)
                 res.sig("S-wbuf", fill_to, behind)
                 keys = [s.key for s in got]
-                case = {"part": "S", "write_buffer": fill_to, "high_water": high, "buffered": size0, "frames_behind_ping": behind}
+                case = {"part": "S", "write_buffer": fill_to, "high_water": high, "buffered": size0, "frames_behind_ping": behind, "framing": framing}
                 if keys != [100 + k for k in range(behind)]:
-                    res.violation("C01/S/frames-lost-behind-ping", f"write buffer at {size0} of high-water {high}; chunk = PingRequest + {behind} state frames: "
+                    res.violation(f"{prop}/S/frames-lost-behind-ping", f"write buffer at {size0} of high-water {high}; chunk = PingRequest + {behind} state frames: "
                                   f"delivered keys {keys[:6]}... ({len(keys)} of {behind})", case, trace=sim.trace(30))
                 else:
                     res.count("S/frames_delivered_and_checked", len(keys))
